@@ -68,9 +68,18 @@ def content(hc):
 
 
 def _warmup(h):
-    """Ask the projections and the s-centralities once; results are discarded."""
+    """Ask the projections, the adjacency matrix and the centralities once; results are
+    discarded."""
     from hypergraphx.representations import projections as PR
     from hypergraphx.measures import s_centralities as SC
+    from hypergraphx.measures.sub_hypergraph_centrality import subhypergraph_centrality
+    try:
+        h.adjacency_matrix()
+        h.adjacency_matrix(return_mapping=True)
+        if not h.is_weighted():     # C20 hands only unweighted hypergraphs to this function
+            subhypergraph_centrality(h)
+    except Exception:  # noqa: only populates caches; must not cut the rest of the warm-up short
+        pass
     PR.bipartite_projection(h)
     PR.clique_projection(h)
     for s in (1, 2):
@@ -270,17 +279,20 @@ def threshold_exact(distance, pq):
 
 
 @st.composite
-def thresholds(draw, distance, present):
+def thresholds(draw, distance, present, max_den=6):
     """A threshold [p, q].  `present` = positive exact similarities occurring in
     the case; three times out of four one of those (so that some pair sits
     exactly on the threshold; half of the time not the smallest one, so that
-    another pair lies just below), otherwise an arbitrary admissible value."""
+    another pair lies just below), otherwise an arbitrary admissible value.
+    Jaccard thresholds have denominators <= max_den (threshold_arg argues that the float
+    comparison is exact for denominators <= 30)."""
+    assert max_den <= 30
     if distance == "intersection":
         cands = sorted({v for v in present if v >= 1})
         generic = st.integers(1, 5).map(lambda k: Fraction(k))
     else:
-        cands = sorted({v for v in present if v > 0 and v.denominator <= 6})
-        generic = st.integers(1, 6).flatmap(
+        cands = sorted({v for v in present if v > 0 and v.denominator <= max_den})
+        generic = st.integers(1, max_den).flatmap(
             lambda q: st.integers(1, q).map(lambda p: Fraction(p, q)))
     mode = draw(st.integers(0, 3))
     if len(cands) >= 2 and mode >= 2:
